@@ -631,6 +631,48 @@ fn judge_two_labels(la: &[usize; 3], lb: &[usize; 3], tail: bool, l: &mut Local)
     l.nontrivial(&src);
 }
 
+// ---- an `asm` block that can never be accepted: one of its instructions has two equally small candidates ------
+// The block holds a label of its own (so it needs more than one inner pass). Whatever the budget, the only legitimate
+// outcome is the error; a success would be a guess that was never confirmed.
+
+fn judge_ambiguous_in_block(variant: usize, l: &mut Local) {
+    let bodies = [
+        "        amb 1\n        here:\n        ld here\n",
+        "        ld here\n        here:\n        amb 2\n",
+        "        here:\n        amb here\n",
+        "        nop\n        here:\n        ld here\n        amb 3\n",
+    ];
+    let src = format!("#ruledef\n{{\n    nop => 0x00\n    ld {{x}} => 0x10 @ x`8\n    amb {{x}} => 0xa1 @ x`8\n    amb {{x}} => 0xa2 @ x`8\n    blk => asm\n    {{\n{}    }}\n}}\nnop\nblk\n#d8 0xee\n", bodies[variant]);
+    for iters in [1usize, 2, 3, 4, 10, 30] {
+        for opt in [true, false] {
+            let opts = Opts { iters, opt_static: opt, opt_matcher: opt, defines: vec![] };
+            l.eval();
+            let obs = run::assemble_str(&src, &opts);
+            l.traces_validated += 1;
+            let bad = if obs.panicked.is_some() {
+                Some(("C02:panic", "panic"))
+            } else if obs.ok {
+                Some(("C02:stale-or-inconsistent-success", "a block with an instruction of two equally small candidates was assembled"))
+            } else if !obs.failure() {
+                Some(("C02:unclean-outcome", "neither clean success nor clean failure"))
+            } else {
+                l.class("ambiguous-instruction-in-a-block-rejected");
+                None
+            };
+            if let Some((key, why)) = bad {
+                l.violation(Violation {
+                    property: ID,
+                    key: key.into(),
+                    what: format!("{} [iters={} optimisations={}]: {}", why, iters, opt, src.replace('\n', " / ")),
+                    case: json!({"family": "ambiguous-in-a-block", "variant": variant, "program": src, "opts": opts.to_json(), "observed": obs.summary()}),
+                });
+                return;
+            }
+        }
+    }
+    l.nontrivial(&src);
+}
+
 pub fn run(ctx: &Ctx) -> Report {
     let mut rep = Report::new(
         "model_checking",
@@ -690,6 +732,11 @@ pub fn run(ctx: &Ctx) -> Report {
         }));
         levels.push(json!({"family": "an asm block with two labels of its own: 27 x 27 width tables x with/without a third instruction x budgets {3,10,30} x optimisations on/off; closed-form set of self-consistent layouts", "programs": n}));
     }
+    {
+        let v: Vec<usize> = (0..4).collect();
+        rep.absorb(par_cases(&v, |k, l| judge_ambiguous_in_block(*k, l)));
+        levels.push(json!({"family": "an asm block with a label and an instruction of two equally small candidates (directed): 4 bodies x budgets {1,2,3,4,10,30} x optimisations on/off; the only legitimate outcome is the error", "programs": 4}));
+    }
     rep.extra("levels", json!(levels));
     rep.extra("budgets", json!(budgets));
     rep.assumptions = vec!["the certificate uses the reference matcher/evaluator (refasm) with the sizes and symbol values the assembler itself reports; it never predicts which fixed point is found".into(), "hook H2 (per-pass state digests) is coverage instrumentation only: the certificate reads the public final result".into()];
@@ -701,6 +748,11 @@ pub fn run(ctx: &Ctx) -> Report {
 
 pub fn replay(ctx: &Ctx, case: &serde_json::Value) -> i32 {
     super::replay_with(ctx, case, |case, l| {
+        if case["family"] == "ambiguous-in-a-block" {
+            println!("program:\n{}", case["program"].as_str().unwrap_or(""));
+            judge_ambiguous_in_block(case["variant"].as_u64().unwrap_or(0) as usize, l);
+            return;
+        }
         if case["family"] == "two-labels-in-a-block" {
             let w = |k: &str| -> [usize; 3] {
                 let a: Vec<usize> = case[k].as_array().cloned().unwrap_or_default().iter().map(|x| x.as_u64().unwrap_or(8) as usize).collect();
